@@ -452,8 +452,9 @@ def transferCoin (c : Cfg) (x : Xfer) : Except Err (Option Grant) :=
 
 /-- `IbcTransferCoin` (marker.go:728), the part before the IBC module is called: restricted
 marker, `transfer` right (`force_transfer` does not help here, and the status is not looked
-at), and the sender's authz grant unless the administrator sends own coins. Not driven by the
-correspondence streams (the harness app has no IBC channel); tied by the regenerated facts. -/
+at), and the sender's authz grant unless the administrator sends own coins. Driven in the app
+stream through the real `msgServer.IbcTransfer` of a marker keeper over the app's stores whose
+ibc transfer server is a recording stand-in (`xfer … via=ibc`), see `ibcTransferMsgWith`. -/
 def ibcTransferCoinWith (keep : Bool) (c : Cfg) (selfFrom : Bool) (stored : Option Grant) (u : Use) :
     Except Err (Option Grant) :=
   if c.mtype ≠ .restricted then .error .mtype
@@ -481,6 +482,84 @@ def transferSeqWith (keep : Bool) (c : Cfg) (stored : Option Grant) : List Xfer 
 
 def transferSeq (c : Cfg) (stored : Option Grant) (xs : List Xfer) : Option Grant × List Use :=
   transferSeqWith keepAllowListOnUpdate c stored xs
+
+/-! ## The authz store: one grant per (granter, grantee)
+
+`authzHandler(ctx, admin, from, to, amount)` (marker.go:790) reads
+`authzKeeper.GetAuthorization(ctx, grantee = admin, granter = from, …)` and writes the same key
+back (`DeleteGrant` / `SaveGrant(ctx, admin, from, …)`): the grant consulted and debited is the
+one GIVEN BY the account the coins leave TO the administrator that signs. `TransferCoin` calls it
+with `(admin, from)` (marker.go:658) and `IbcTransferCoin` with `(admin, sender)` (marker.go:753).
+Grants of other pairs — in particular one given by the administrator to the source account, or by
+the source account to another administrator — are neither looked at nor touched. -/
+
+/-- `(granter, grantee)` -/
+abbrev Pair := String × String
+
+/-- the `MarkerTransferAuthorization`s in the authz store, by `(granter, grantee)` -/
+abbrev AuthzStore := Pair → Option Grant
+
+def AuthzStore.empty : AuthzStore := fun _ => none
+
+def AuthzStore.put (t : AuthzStore) (p : Pair) (g : Option Grant) : AuthzStore :=
+  fun q => if q = p then g else t q
+
+/-- `msgServer.Transfer` (msg_server.go:381) → `TransferCoin(from, to, admin)` over the authz
+store. `c` is the marker as the signing administrator sees it (`c.acc` = the rights of `admin`);
+`x.selfFrom` / `x.stored` are taken from the addresses and the store. -/
+def transferMsgWith (keep : Bool) (c : Cfg) (t : AuthzStore) (admin from_ : String) (x : Xfer) :
+    Except Err AuthzStore :=
+  match transferCoinWith keep c { x with selfFrom := admin == from_, stored := t (from_, admin) } with
+  | .error e => .error e
+  | .ok s' => .ok (t.put (from_, admin) s')
+
+/-- `msgServer.IbcTransfer` (msg_server.go:418) → `IbcTransferCoin` (marker.go:728) over the
+authz store: `MsgIbcTransferRequest.ValidateBasic` (→ ibc `MsgTransfer.ValidateBasic`: a token
+that is not positive is "insufficient funds"), the guard of `IbcTransferCoin`, then the ibc
+transfer module takes the token out of the sender's account (`fromBal`). The marker's status is
+not looked at, `force_transfer` plays no role, the receiver is on another chain (no deposit /
+blocked-address rule) but is what the grant's allow list is compared with. -/
+def ibcTransferMsgWith (keep : Bool) (c : Cfg) (t : AuthzStore) (admin from_ : String) (u : Use)
+    (fromBal : Int) : Except Err AuthzStore :=
+  if u.amount ≤ 0 then .error .funds
+  else match ibcTransferCoinWith keep c (admin == from_) (t (from_, admin)) u with
+    | .error e => .error e
+    | .ok s' => if fromBal < u.amount then .error .funds else .ok (t.put (from_, admin) s')
+
+/-- One transfer message of a history: which endpoint, who signs, whose coins, and what the
+handler sees (the marker as that administrator sees it, the accounts involved). -/
+structure TMsg where
+  ibc : Bool
+  admin : String
+  from_ : String
+  cfg : Cfg
+  x : Xfer
+  deriving DecidableEq, Repr
+
+def TMsg.runWith (keep : Bool) (t : AuthzStore) (m : TMsg) : Except Err AuthzStore :=
+  if m.ibc then ibcTransferMsgWith keep m.cfg t m.admin m.from_ m.x.use m.x.fromBal
+  else transferMsgWith keep m.cfg t m.admin m.from_ m.x
+
+/-- the message, if it succeeds, goes through the authz grant of `(from, admin)` -/
+def TMsg.charges (m : TMsg) : Bool :=
+  if m.ibc then !(m.admin == m.from_)
+  else usesGrant m.cfg { m.x with selfFrom := m.admin == m.from_ }
+
+/-- A history of transfer messages of both kinds, by any administrators out of any accounts:
+the authz store at the end and, in order, the uses that went through a grant with the pair
+they were charged to. A rejected message changes nothing. -/
+def msgSeqWith (keep : Bool) (t : AuthzStore) : List TMsg → AuthzStore × List (Pair × Use)
+  | [] => (t, [])
+  | m :: rest =>
+    match m.runWith keep t with
+    | .error _ => msgSeqWith keep t rest
+    | .ok t' =>
+      let (fin, acc) := msgSeqWith keep t' rest
+      (fin, if m.charges then ((m.from_, m.admin), m.x.use) :: acc else acc)
+
+/-- the uses charged to the grant of pair `p` -/
+def usesOf (p : Pair) (cs : List (Pair × Use)) : List Use :=
+  (cs.filter (fun e => e.1 == p)).map (·.2)
 
 /-! ## A marker through a history of messages (active marker, real message flow)
 
